@@ -85,6 +85,8 @@ def generate_mesh(vertices, edges, cells, ne=4, **kwargs):
                 # cellsToRemove.append(cid)
 
     # remove all edges
+    for old_edge in edges.values():
+        old_edge.unregister()
     edges.clear()
     for vi in vertexToRemove:
         del vertices[vi]
@@ -385,7 +387,7 @@ def join_two_vertices(vertices_to_join, vertices, edges, cells, mapper={}):
     for cid in list_of_cells_1:
         cells[cid].replace_vertex(vertices[v1.id], new_vertex)
     # destroy edge
-    del edges[common_edge]
+    edges.pop(common_edge).unregister()
     # replace vertex in the edges
     list_of_edges_0 = [eid for eid in v0.ownEdges]
     list_of_edges_1 = [eid for eid in v1.ownEdges]
